@@ -1054,3 +1054,28 @@ impl VersionSet {
         )
     }
 }
+
+/// Introspection for the verification hooks (`--cfg raindb_verif` only).
+#[cfg(raindb_verif)]
+impl VersionSet {
+    /// The file numbers referenced by every version still linked in the version list.
+    pub(crate) fn verif_live_versions(&self) -> Vec<Vec<u64>> {
+        self.versions
+            .iter()
+            .map(|version| {
+                let mut numbers: Vec<u64> = vec![];
+                for level in 0..MAX_NUM_LEVELS {
+                    for file in version.read().element.files[level].iter() {
+                        numbers.push(file.file_number());
+                    }
+                }
+                numbers
+            })
+            .collect()
+    }
+
+    /// The current file number counter.
+    pub(crate) fn verif_curr_file_number(&self) -> u64 {
+        self.curr_file_number
+    }
+}
